@@ -2,6 +2,7 @@
 # ./seedtest.sh <patch.diff> <ID> [<ID>...]  — apply a seeded change to /repo, run the quick checks, undo it.
 set -u
 patch="$1"; shift
+export VERIF_OUT_DIR=/tmp/seedreport-out; mkdir -p $VERIF_OUT_DIR
 cd /repo && git diff --quiet || { echo "repo dirty"; exit 2; }
 git -C /repo apply "$patch" || { echo "patch does not apply"; exit 2; }
 for id in "$@"; do
